@@ -53,7 +53,9 @@ TYPED = [
 COLS = {"S": "S VARCHAR", "I": "I INT", "F": "F FLOAT", "D": "D NUMBER(20,5)", "B": "B BOOLEAN", "DT": "DT DATE",
         "TS": "TS TIMESTAMP_NTZ", "TM": "TM TIME"}
 STYLES = ["pyformat_seq", "pyformat_dict", "format", "qmark"]
-POSITIONS = ["values", "select_list", "where_eq", "where_ne", "in_list", "in_listvalue", "like", "update_set", "limit", "two_stmts"]
+POSITIONS = ["values", "select_list", "where_eq", "where_ne", "in_list", "in_listvalue", "like", "update_set", "limit", "two_stmts", "two_strings", "two_strings"]
+PAIRS = [("ends with backslash\\", "see $region"), ("\\", "$5"), ("a\\", "x $v1 y"), ("it's", "cost $price"), ("q'", "$v1"), ("\\'", "$$x$$"),
+         ("100%", "%s"), ("%s", "100%"), ("a;b", "-- c"), ("/*", "*/"), ("'", "'"), ("$v1", "ends\\"), ("x\\", "it's $5"), ("?", "??")]
 DECOYS = ["plain", "it's", "100%", "%s", "$v1", "a;b", "--", "héllo", "", "x", "\\", "a\\'b", "line1\nline2", "?"]
 
 
@@ -81,8 +83,15 @@ def gen_cases(tier: str, seed: int):
             t, v = r.choice(TYPED)
         else:
             t, v = "S", _rand_string(r)
+        v2 = _rand_string(r)
+        if pos == "two_strings":
+            t = "S"
+            if r.random() < 0.7:
+                v, v2 = r.choice(PAIRS)
+            else:
+                v = _rand_string(r)
         yield core.jsonable({
-            "kind": "param", "style": style, "pos": pos, "type": t, "val": v, "val2": _rand_string(r),
+            "kind": "param", "style": style, "pos": pos, "type": t, "val": v, "val2": v2,
             "var": r.random() < 0.25,
         })
 
@@ -222,6 +231,17 @@ def run_case(case: dict, env: core.Env) -> None:
         stmts.append((f"SELECT ID FROM DECOY WHERE S <> {ph(style, 0)} ORDER BY ID LIMIT {ph(style, 1)}", bind(style, [v, k]),
                       f"SELECT ID FROM DECOY WHERE S <> {qlit(v)} ORDER BY ID LIMIT {k}"))
         check = ("rows", [(i,) for i, s in enumerate(DECOYS) if s != v][:k])
+    elif pos == "two_strings":
+        cur.execute("CREATE OR REPLACE TABLE RT (S VARCHAR, S2 VARCHAR, N INT)")
+        tcur.execute("CREATE OR REPLACE TABLE RT_TWIN (S VARCHAR, S2 VARCHAR, N INT)")
+        if case["var"]:
+            for c_ in (cur, tcur):
+                c_.execute("SET region = 42")
+                c_.execute("SET v1 = 'vee'")
+        stmts.append((f"INSERT INTO RT (S, S2, N) VALUES ({ph(style, 0)}, {ph(style, 1)}, {ph(style, 2)})", bind(style, [v, v2, 1]),
+                      f"INSERT INTO RT_TWIN (S, S2, N) VALUES ({qlit(v)}, {qlit(v2)}, 1)"))
+        col = "S, S2"
+        check = ("table2", [(v, v2, 1)])
     elif pos == "two_stmts":
         cur.execute("CREATE OR REPLACE TABLE RT (S VARCHAR, N INT)")
         tcur.execute("CREATE OR REPLACE TABLE RT_TWIN (S VARCHAR, N INT)")
@@ -267,6 +287,11 @@ def run_case(case: dict, env: core.Env) -> None:
         env.count("cmp_twin_rows")
         if not _rows_equal([tuple(x) for x in out["rows"]], [tuple(x) for x in tout["rows"]]):
             env.witness(f"C08/twin-differs/{style}/{pos}/{vclass}", f"{stmts[0][0]} {stmts[0][1]!r} -> {out['rows']} literal twin {tout['rows']}")
+    if check[0] == "table2":
+        env.count("cmp_roundtrip")
+        got = [tuple(x) for x in cur.execute("SELECT S, S2, N FROM RT").fetchall()]
+        if got != check[1]:
+            env.witness(f"C08/value/{style}/{pos}/{vclass}+{_vclass(v2)}", f"{stmts[0][0]} {stmts[0][1]!r} -> table {got} expected {check[1]}")
     if check[0] == "table":
         env.count("cmp_roundtrip")
         got = sorted((tuple(x) for x in cur.execute(f"SELECT {col}, N FROM RT").fetchall()), key=lambda x: x[1])
@@ -278,7 +303,7 @@ def run_case(case: dict, env: core.Env) -> None:
             env.witness(f"C08/twin-differs/{style}/{pos}/{vclass}", f"{stmts[0][0]} {stmts[0][1]!r} -> {got} literal twin {tgot}")
     env.count("cmp_structure")
     objs_after = _objects(fs)
-    expect = set(map(tuple, objs_before)) | ({("DB1", "S1", "RT"), ("DB1", "S1", "RT_TWIN")} if check[0] == "table" else set())
+    expect = set(map(tuple, objs_before)) | ({("DB1", "S1", "RT"), ("DB1", "S1", "RT_TWIN")} if check[0] in ("table", "table2") else set())
     if set(map(tuple, objs_after)) != expect:
         env.witness(f"C08/structure/objects-changed/{style}/{pos}", f"{stmts[0][0]} {stmts[0][1]!r}: {sorted(expect ^ set(map(tuple, objs_after)))}")
     dec = cur.execute("SELECT COUNT(*) FROM DECOY").fetchall()
